@@ -68,6 +68,8 @@ pub struct SlotSpec {
     pub retarget: Vec<(String, String)>,
     pub lift_return: Option<String>,
     pub letlifts: Vec<(String, usize, String)>, // method name, ordinal, variable
+    pub self_name: Option<String>,
+    pub wrap_tail: Option<String>,              // `//@wrap_tail F`: the tail expression E of a lifted body becomes F(E)              // `//@self NAME`: `self` in a lifted body becomes NAME
     pub tline: usize,
 }
 
@@ -214,7 +216,7 @@ fn run(repo: &str, template: &str, shimdir: &str, logv: &mut Value) -> Result<St
                 cur = Some(SlotSpec { name: name.trim().into(), locator: loc.trim().into(), props: unit_props.clone(), tline, ..Default::default() });
                 in_sig = true;
             }
-            "loop" | "closure" | "hint" | "subst" | "ufcs" | "noufcs" | "expand" | "letlift" => {
+            "loop" | "closure" | "hint" | "subst" | "ufcs" | "noufcs" | "expand" | "letlift" | "self" | "wrap_tail" => {
                 let s = cur.as_mut().ok_or_else(|| Undecided(format!("template line {}: '{}' outside slot", tline, kw)))?;
                 in_sig = false;
                 match kw.as_str() {
@@ -244,6 +246,12 @@ fn run(repo: &str, template: &str, shimdir: &str, logv: &mut Value) -> Result<St
                         // hint <where>: text    where := head | tail | loop_start N | loop_end N | before "anchor" | after "anchor"
                         let (w, body) = split_hint(&rest).ok_or_else(|| Undecided(format!("template line {}: bad hint", tline)))?;
                         s.hints.push((w, one_line(&body)));
+                    }
+                    "self" => {
+                        s.self_name = Some(rest.trim().to_string());
+                    }
+                    "wrap_tail" => {
+                        s.wrap_tail = Some(rest.trim().to_string());
                     }
                     "letlift" => {
                         // letlift .method#k as name
